@@ -861,3 +861,36 @@ def r_nebool(ctx, tenv, funcs, rule: str = 'R-NEBOOL') -> int:
                             ctx.fail(rule, fn, f'`{core.src(c)}` in a boolean context: `!=` on a DSL operable builds a NotEqual expression, which is always truthy (use `not a == b`)', c)
                             break
     return n
+
+
+def r_reduce(ctx, classes, rule: str = 'R-PICKLE') -> int:
+    """``__reduce__`` returning ``(cls, (args...))`` re-creates the object through its constructor: every constructor
+    parameter the instance keeps (``self._p`` / ``self.p`` bound from parameter ``p`` in ``__init__``) is handed back, at the
+    position of that parameter - a dropped one silently falls back to the constructor default after a pickle round trip
+    (copy, deepcopy, process boundary).  Returns the number of reducers checked."""
+    n = 0
+    for ci in classes:
+        red, init = ci.methods.get('__reduce__'), ci.methods.get('__init__')
+        if red is None or init is None:
+            continue
+        ret = next((r for r in core.walk_local(red) if isinstance(r, ast.Return)), None)
+        if ret is None or not isinstance(ret.value, ast.Tuple) or len(ret.value.elts) < 2 or not isinstance(ret.value.elts[1], ast.Tuple):
+            continue
+        args = ret.value.elts[1].elts
+        params = [a.arg for a in init.args.args[1:]]
+        if init.args.vararg is not None or not params:
+            continue
+        kept = {}
+        for a in core.walk_local(init):
+            if isinstance(a, (ast.Assign, ast.AnnAssign)) and a.value is not None:
+                t = a.target if isinstance(a, ast.AnnAssign) else a.targets[0]
+                if isinstance(t, ast.Attribute) and core.src(t.value) == 'self':
+                    for p in params:
+                        if p in core.names_in(a.value) and p not in kept:
+                            kept[p] = t.attr
+        n += 1
+        want = [p for p in params if p in kept]
+        got = [core.src(x) for x in args]
+        ok = len(args) >= len(want) and all(f'self.{kept[p]}' in got[i] for i, p in enumerate(params) if p in kept and i < len(got)) and len(got) >= max((i + 1 for i, p in enumerate(params) if p in kept), default=0)
+        ctx.check(ok, rule, ci.ref, f'{ci.qual}.__reduce__ hands every kept constructor parameter back in position (constructor {params}, kept as {kept}, reduced with {got})', ret, key=f'{ci.qual}:reduce')
+    return n
